@@ -27,7 +27,7 @@ from liquid import CachingDictLoader, DictLoader, Environment, Mode
 from liquid import exceptions as EXC_MOD
 from liquid.ast import IllegalNode, Node
 from liquid.context import RenderContext
-from liquid.exceptions import (BreakLoop, ContinueLoop, LiquidError, LiquidInterrupt, LiquidSyntaxError,
+from liquid.exceptions import (BreakLoop, ContextDepthError, ContinueLoop, LiquidError, LiquidInterrupt, LiquidSyntaxError,
                                LiquidSyntaxWarning, StopRender, lookup_warning)
 from liquid.stream import TokenStream
 from liquid.tag import Tag
@@ -396,6 +396,11 @@ def render_error(k, m, p, partial, block_scope, with_tok, s0, s1, s2):
     res, seen, out, ctx = _render_kernel(mode, p, partial, block_scope, s0, s1, s2)
     if p == 3:
         return (res == ("ok", None) and seen == [] and out == s0 + s1 + s2)
+    if partial and cls is ContextDepthError:
+        # the cut-off of a recursion is not dealt with inside a partial: it unwinds to the root template, which handles
+        # it by mode (c03_r5_recursion checks that end to end); were every level to carry on with its next node, a
+        # partial rendering itself twice would do 2^depth work in LAX mode (C09)
+        return res[0] == "raise" and res[1] is exc and seen == [] and out == _texts(p, s0, s1, s2, p) and "partial" not in ctx.scope
     ok = dispatch_oracle(mode, res, seen, exc)
     ok = ok and exc.token is (TOK_A if with_tok else NODE_TOKS[p])
     if mode == Mode.STRICT:
@@ -788,6 +793,72 @@ for _g in BAD:
     _nm, _f = _mk_r3(_g)
     globals()[_nm] = _f
     CONDITIONS.append({"fn": _nm, "quick": 60, "thorough": 200, "sel_only": True})
+
+# ---- R5: recursion through partials in the tolerant modes: the render returns (no Liquid error, no hang) and WARN reports it
+_R5_P = {"a": "x{% render 'a' %}{% render 'a' %}", "b": "x{% include 'b' %}{% include 'b' %}",
+         "c": "x{% for i in (1..2) %}{% render 'c' %}{% endfor %}",
+         "e": "{% extends 'e2' %}{% block b %}{% include 'e' %}{% include 'e' %}{% endblock %}", "e2": "[{% block b %}{% endblock %}]",
+         "s": "x{% render 'a' %}y{% render 'a' %}z", "t": "{% if true %}{% render 't' %}{% endif %}{% include 't' %}"}
+_R5_NAMES = ["a", "b", "c", "e", "s", "t"]
+_R5_ENVS = {}
+
+
+class _R5Hang(BaseException):
+    pass
+
+
+def _r5_alarm(signum, frame):
+    raise _R5Hang()
+
+
+def recursion_case(ni, m, L, use_async):
+    import signal
+    from liquid import CachingDictLoader
+    mode = mode_of(m)
+    key = (mode, L)
+    if key not in _R5_ENVS:
+        cls = type("R5Env", (Environment,), {"context_depth_limit": L})
+        _R5_ENVS[key] = cls(extra=True, tolerance=mode, loader=CachingDictLoader(dict(_R5_P), auto_reload=False))
+    env = _R5_ENVS[key]
+    old = signal.signal(signal.SIGALRM, _r5_alarm)
+    signal.alarm(10)
+    try:
+        try:
+            t = env.get_template(_R5_NAMES[ni])
+            if use_async:
+                from vf.hx import drive
+                res, seen = watch(lambda: drive(t.render_async()))
+            else:
+                res, seen = watch(lambda: t.render())
+        except _R5Hang:
+            return ("hang", None, 0)
+    finally:
+        signal.alarm(0)
+        signal.signal(signal.SIGALRM, old)
+    return (res[0], type(res[1]).__name__ if res[0] != "ok" else len(res[1]), len(seen))
+
+
+def c03_r5_recursion(ni: int, m: int, li: int, use_async: bool) -> bool:
+    """
+    pre: 0 <= ni <= 5 and 1 <= m <= 3 and 0 <= li <= 2
+    post: _
+    """
+    if excluded("c03_r5_recursion", locals()):
+        return True
+    ni, m, li = conc(ni, 6), conc(m, 4), conc(li, 3)
+    ua = True if use_async else False
+    r = untraced(lambda: recursion_case(ni, m, (8, 16, 30)[li], ua))
+    mode = mode_of(m)
+    if mode == Mode.STRICT:
+        return finish(r[0] == "raise" and r[1] == "ContextDepthError")
+    if mode == Mode.WARN:
+        return finish(r[0] == "ok" and r[2] >= 1)
+    return finish(r[0] == "ok" and r[2] == 0)
+
+
+DETAIL["c03_r5_recursion"] = lambda ni, m, li, use_async: {"template": _R5_P[_R5_NAMES[ni]], "mode": str(mode_of(m)), "context_depth_limit": (8, 16, 30)[li],
+                                                          "(status, error or output length, warnings)": recursion_case(ni, m, (8, 16, 30)[li], use_async)}
+CONDITIONS.append({"fn": "c03_r5_recursion", "quick": 60, "thorough": 120, "sel_only": True})
 
 # ---- R4: resource limits reached while rendering are Liquid errors like any other: suppressed in LAX, reported once or
 # more in WARN, wherever in the template the limit is crossed (top-level text, text in a block, output, partial) --------
